@@ -2884,6 +2884,8 @@ def with_hand(pid, count, vals=False):
         if vals:
             for v in G.pool() + [G.rand_value(rng) for _ in range(300)]:
                 extra.append(("VAL\t" + v, {"kind": "value-api"}))
+            for k in range(260):     # every error variant the public API can build, displayed (the list has fewer entries; the rest answer NA)
+                extra.append(("ERRSHOW\t%d" % k, {"kind": "error-display"}))
         yield extra
 
     def oracle(case, out, model_out):
@@ -2940,6 +2942,6 @@ for _pid in ("C03", "C04", "C06", "C07", "C09", "C10", "C13"):
 
 
 for _pid, _reps, _first in (("C01", 60, False), ("C03", 120, True), ("C04", 200, False), ("C06", 80, False), ("C07", 150, False),
-                            ("C08", 200, False), ("C10", 30, True), ("C11", 150, False), ("C12", 150, False), ("C14", 150, False),
+                            ("C08", 200, False), ("C10", 30, True), ("C11", 150, False), ("C12", 60, False), ("C14", 40, False),
                             ("C15", 5, False), ("C16", 10, False), ("C09", 1, True)):
     PROPS[_pid]["gen"] = deepen(PROPS[_pid]["gen"], _reps, _first)
